@@ -210,3 +210,13 @@ where
         Self::new(src)
     }
 }
+
+#[cfg(feature = "verif")]
+impl<T, B> Codec<T, B> {
+    pub fn verif_stats(&self) -> crate::verif::CodecStats {
+        let mut s = crate::verif::CodecStats::default();
+        self.inner.verif_fill(&mut s);
+        self.inner.get_ref().verif_fill(&mut s);
+        s
+    }
+}
